@@ -201,6 +201,37 @@ def run(rep, tier, seed):
         c["id"] = c["id"].replace("c01", "c06r")
         # `forward-char` & co are documented to insert the suggestion when history-autosuggest is on
         c["inputrc"] = c["inputrc"].replace("set history-autosuggest on\n", "")
+    # (e) sequences around the kill ring: a yank / put into an EMPTY buffer (the buffer then IS the yanked text), movements,
+    #     then every copy command by name (and Vi yanks with motions): copies never edit, whatever the buffer was built from
+    copies = [n for n in spec_class("Copy") if n in avail]
+    moves = [n for n in names if n not in copies and n not in READERS]
+    kbinds, kseqs = private_binds(copies + moves + ["yank", "vi-put-before", "vi-put-after", "kill-whole-line", "kill-line"])
+    kcases = []
+    for i in range(40 if tier == "quick" else 400):
+        mode = ["emacs", "vi-command", "vi-insert"][i % 3]
+        cs = {"id": "c06k-%d" % i, "inputrc": ("set editing-mode vi\n" if mode.startswith("vi") else "") + case_options(rng, i, skip=("autocomplete", "history-autosuggest")),
+              "w": 80, "h": 24, "prompt": "> ", "binds": kbinds, "setups": [], "sessions": []}
+        for _ in range(4):
+            sess = []
+            for _ in range(25):
+                text = rng.choice(["hello world", "ab cd ef", "a", "x (y) z", "héllo wörld", "one\ntwo three"])
+                if rng.random() < 0.5:
+                    cs["setups"].append(setup("", 0, mode, kill=text))          # the ring is filled, the buffer empty
+                    sess.append(SETUP_KEY)
+                else:
+                    cs["setups"].append(setup(text, 0, mode))                    # kill the whole buffer first
+                    sess += [SETUP_KEY, keys(kseqs[rng.choice(["kill-whole-line", "kill-line"])])]
+                sess.append(keys(kseqs[rng.choice(["yank", "vi-put-before", "vi-put-after"])]))
+                for _ in range(rng.randint(0, 3)):
+                    sess.append(keys(kseqs[rng.choice(moves)]))
+                c = rng.choice(copies)
+                sess.append(keys(kseqs[c]))
+                if c == "vi-yank-to":
+                    sess.append(keys(rng.choice([b"w", b"e", b"$", b"b", b"iw", b"l", b"0"])))
+                sess.append(keys(kseqs[rng.choice(moves)]))
+            cs["sessions"].append(sess)
+        kcases.append(cs)
+    cases += kcases
     # history walks and searches (incremental, non-incremental with its minibuffer, repeated): the buffer is replaced as a
     # whole by these commands and the cursor must end up inside it (on a character in Vi command mode)
     import p_c09
